@@ -310,8 +310,47 @@ func appendFactsOf(out []Fact, d, b *ssa.BasicBlock) []Fact {
 	}
 	if edgeDominates(d, 0, b) {
 		out = append(out, Fact{ifi.Cond, true, ifi})
+		out = appendShortCircuitFacts(out, ifi, true, 0)
 	} else if edgeDominates(d, 1, b) {
 		out = append(out, Fact{ifi.Cond, false, ifi})
+		out = appendShortCircuitFacts(out, ifi, false, 0)
+	}
+	return out
+}
+
+// appendShortCircuitFacts: `x || y` / `x && y` used as a value (a switch case, an
+// assignment) is lowered to a phi of a constant and the right operand. When the phi is
+// known to be `taken` and only one incoming edge can carry that value, the path came
+// through that edge: the operand it carries has that value and whatever holds at the
+// end of that predecessor (the left operand's outcome) holds too.
+func appendShortCircuitFacts(out []Fact, ifi *ssa.If, taken bool, depth int) []Fact {
+	cond, pol := normCond(ifi.Cond, taken)
+	ph, ok := cond.(*ssa.Phi)
+	if !ok || depth > 3 {
+		return out
+	}
+	var cand []int
+	for i, e := range ph.Edges {
+		if c, isC := e.(*ssa.Const); isC && c.Value != nil && c.Value.Kind() == constant.Bool {
+			if constant.BoolVal(c.Value) != pol {
+				continue // this edge cannot produce the known value
+			}
+		}
+		cand = append(cand, i)
+	}
+	if len(cand) != 1 {
+		return out
+	}
+	i := cand[0]
+	pred := ph.Block().Preds[i]
+	if _, isC := ph.Edges[i].(*ssa.Const); !isC {
+		out = append(out, Fact{ph.Edges[i], pol, ifi})
+	}
+	// facts at the end of that predecessor
+	for d := pred; d != nil; d = d.Idom() {
+		if d != pred {
+			out = appendFactsOf(out, d, pred)
+		}
 	}
 	return out
 }
